@@ -90,6 +90,18 @@ inline void stat_sig(std::string const& k, std::string const& s)
   g_stats.sig(k, s);
 }
 
+// pseudo call-out: a system-clock read on the scheduler / backend thread in mode S (see vclock.h)
+constexpr int kClockReadPoint = 60;
+inline thread_local bool tl_in_clock_hook = false;
+inline void clock_read_hook()
+{
+  if (!g_mode_s || tl_sworker || tl_in_clock_hook || !g_inject) return;
+  tl_in_clock_hook = true;
+  g_hook_counts[kClockReadPoint].fetch_add(1, std::memory_order_relaxed);
+  g_inject(kClockReadPoint, nullptr, 0);
+  tl_in_clock_hook = false;
+}
+
 inline void hook(int p, void const* a, uint64_t b)
 {
   g_hook_counts[p & 63].fetch_add(1, std::memory_order_relaxed);
